@@ -5,7 +5,7 @@
 From Irismod Require Import Queues.Common.
 From Irismod Require Queues.Htlc Queues.ProofsHtlc Queues.CheckHtlc Queues.SoundHtlc.
 From Irismod Require Queues.Random Queues.ProofsRandom Queues.CheckRandom Queues.SoundRandom.
-From Irismod Require Queues.Farm Queues.ProofsFarm Queues.CheckFarm Queues.SoundFarm.
+From Irismod Require Queues.Farm Queues.ProofsFarm Queues.CheckFarm Queues.SoundFarm Queues.PassFarm.
 From Irismod Require Queues.Service Queues.ProofsService Queues.CheckService Queues.SoundService.
 
 (** ** HTLC (modules/htlc/abci.go: BeginBlocker; keeper/htlc.go) *)
@@ -215,6 +215,16 @@ Theorem farm_check_hygiene_clause_sound :
     Queues.CheckFarm.fhyg (Queues.SoundFarm.obs_of (run (init h0) ops)) = true.
 Proof. exact Queues.SoundFarm.hygiene_clause_holds_on_every_history. Qed.
 Print Assumptions farm_check_hygiene_clause_sound.
+
+(** The model passes its own check: for every clean history the checker that is run on the
+    implementation's traces, fed the observations the MODEL produces, returns (-1,-1,0) — no
+    divergence and no clause of the C13 predicate (31 abort, 32 hygiene, 33 exactly once at the
+    end height) fires.  The predicate demands nothing the theorems do not give. *)
+Theorem model_passes_check_farm :
+  forall h0 ops, Forall op_clean ops ->
+    Queues.CheckFarm.check_farm (h0, Queues.PassFarm.mtrace (init h0) ops) = (-1, -1, 0).
+Proof. exact Queues.PassFarm.model_passes_check_farm. Qed.
+Print Assumptions model_passes_check_farm.
 
 (** non-vacuity: two pools ending together at height 6 (one adjusted to it in its last block),
     one pool destroyed in the block it falls due, one with nothing left to refund *)
